@@ -86,3 +86,32 @@ extern "C" void h_counter_race()
   VASSERT(reported + rest == incs);
   VWITNESS(incs == 3 && reported == 2 && vra_stale_reads() >= 1);
 }
+
+// (c) a DISCARDED statement with variable-length C-string arguments must leave no trace: the next statement (different
+// string lengths) is encoded with ITS OWN lengths (the per-thread size cache is per statement)
+extern "C" void h_drop_then_cstr()
+{
+  BQ* q = setup(8, 0);
+  static constexpr MacroMetadata mdA{"f.cpp:1", "fn", "{} {}", nullptr, LogLevel::Info, MacroMetadata::Event::Log};
+  static constexpr MacroMetadata mdB{"f.cpp:2", "fn", "{}", nullptr, LogLevel::Info, MacroMetadata::Event::Log};
+  char a[SLEN + 1], b[SLEN + 1], c[SLEN + 1];
+  sym_bytes(a, SLEN); a[SLEN] = 0; sym_bytes(b, SLEN); b[SLEN] = 0; sym_bytes(c, SLEN); c[SLEN] = 0;
+  char const* pa = a; char const* pb = b; char const* pc = c;
+  // fill the queue so that the first statement is discarded: one 40-byte record leaves 24 bytes, statement A needs >= 34
+  bool ok0 = g_l.l.log_statement<false, false>(LogLevel::None, &mdB, static_cast<uint64_t>(7));
+  VASSERT(ok0);
+  bool okA = g_l.l.log_statement<false, false>(LogLevel::None, &mdA, pa, pb);
+  VASSERT(!okA);
+  // backend consumes the first record; now statement B (one C string of another length) is delivered
+  std::byte* r0 = q->prepare_read(); VASSERT(r0 != nullptr); q->finish_read(40); q->commit_read();
+  size_t lc = strnlen(c, SLEN);
+  size_t wbefore = q->_writer_pos;
+  bool okB = g_l.l.log_statement<false, false>(LogLevel::None, &mdB, pc);
+  VASSERT(okB);
+  VASSERT(q->_writer_pos == wbefore + 32 + lc + 1);             // reserved == written, with B's own length
+  Hdr hd; std::byte* r = read_header(q, &hd);
+  char const* d = Codec<char const*>::decode_arg(r);
+  VASSERT(strlen(d) == lc);
+  for (uint32_t i = 0; i < SLEN; i++) if (i < lc) VASSERT(d[i] == c[i]);
+  VWITNESS(lc == SLEN && strnlen(a, SLEN) == 1);
+}
